@@ -219,6 +219,7 @@ func checkC07(c *core.Ctx, r *core.Report) {
 	for _, call := range callsTo(syncFn, readPop) {
 		n++
 		checkErrGuardedUse(c, r, "GUARD", call, "readSegFullMetaFileAndPopulate", "recovery must adopt a segment directory only when its .sfm was read and parsed")
+		checkAdoptedOnSuccess(c, r, "GUARD", call, "readSegFullMetaFileAndPopulate", "every open segment whose .sfm parses carries completed flushes and must be adopted at restart, whatever its counters say (the running .sfm is written before numBlocks is incremented)")
 	}
 	for _, call := range callsTo(c.Fn(pkgQuery, "readSegFullMetaFileAndPopulate"), readSfm) {
 		n++
